@@ -34,7 +34,7 @@ def run(tier, seed):
         i, o = c['in'], c['out']
         shape = tuple(i['shape'])
         shapes[str(shape)] = shapes.get(str(shape), 0) + 1
-        desc = {'legacy_shape (has fetching_since, has not_found, user_version)': i['shape'], 'legacy_rows': i['rows'], 'opens': i['opens'], 'impl': {k: o[k] for k in ('open_results', 'user_version')}}
+        desc = {'legacy_shape (has fetching_since, has not_found, user_version)': i['shape'], 'legacy_rows': i['rows'], 'interrupted_first_open': i.get('interrupted_first_open'), 'opens': i['opens'], 'impl': {k: o[k] for k in ('open_results', 'user_version')}}
         if not all(o['open_results']):
             rep.violation(f'Cache::new failed on a legacy database of shape {i["shape"]}: {o["open_results"]}', desc)
             continue
@@ -48,6 +48,11 @@ def run(tier, seed):
         if o['after_open'] != {'pk': pk, 'vs': vs, 'tg': tg}:
             rep.violation('opening a legacy database changed its data', dict(desc, after_open=o['after_open']))
             continue
+        if any(s['db'] == 'unreadable' for s in o['steps']):
+            k = [j for j, s in enumerate(o['steps']) if s['db'] == 'unreadable'][0]
+            rep.violation(f'after opening a legacy database of shape {i["shape"]} the tables can no longer be read with the current schema (a column is missing)',
+                          dict(desc, operations=i['ops'][:k + 1], returned=[s['ret'] for s in o['steps'][:k + 1]]))
+            continue
         # behaves like a fresh cache holding the same rows: replay the operations on the model started from the rows
         steps = '[' + ';\n '.join(f'({L.g_op(op)}, {L.g_ret(op, s["ret"])}, {L.g_snap(s["db"])})' for op, s in zip(i['ops'], o['steps'])) + ']'
         terms.append(f'({g_db(i["rows"])}, {steps})')
@@ -59,13 +64,13 @@ def run(tier, seed):
         c = cases[idx[k]]
         step = bad[k] // 100 - 1
         rep.violation(f'after opening a legacy database of shape {c["in"]["shape"]} an operation behaves differently from a fresh cache holding the same rows',
-                      {'legacy_shape': c['in']['shape'], 'legacy_rows': c['in']['rows'], 'operations': c['in']['ops'][:step + 1], 'impl': c['out']['steps'][step]})
+                      {'legacy_shape': c['in']['shape'], 'legacy_rows': c['in']['rows'], 'interrupted_first_open': c['in'].get('interrupted_first_open'), 'operations': c['in']['ops'][:step + 1], 'impl': c['out']['steps'][step]})
     # interrupted schema creation: abort at every point of create_schema / apply_migrations, then reopen (shared with C11's stream: mode abort)
     rep.cov.update({'evaluations': len(cases), 'distinct_nontrivial': len(shapes) * 3,
                     'rule': 'legacy files built with raw SQL for each of 8 shapes (base; +claim column at version 0/1; +both at 0/1/2; newer-than-known 3, 7) with random rows, '
                             'opened 1-3 times, then 8 random write operations compared step by step (return values and raw tables) with the model started from the same rows',
                     'traces_validated_against_impl': len(terms) - len(bad)})
-    rep.cov['streams']['migrate'] = {'cases': len(cases), 'by_shape': shapes}
+    rep.cov['streams']['migrate'] = {'cases': len(cases), 'by_shape': shapes, 'with_interrupted_first_open': sum(1 for c in cases if c['in'].get('interrupted_first_open') and c['in']['interrupted_first_open'].get('fired'))}
     rep.cov['samples'] = [{'shape': c['in']['shape'], 'rows': len(c['in']['rows']), 'opens': c['in']['opens'], 'open_results': c['out']['open_results']} for c in cases[:4]]
     rep.assumptions = ['ALTER TABLE ADD COLUMN / CREATE IF NOT EXISTS / PRAGMA user_version do not touch existing rows (SQLite; monitored by the data comparison)',
                        'two processes opening at the same moment are covered by the monotonicity / interrupted-open theorems; real concurrent opens are not scheduled by the stream']
